@@ -389,11 +389,57 @@ func TestVerifC32SubgroupRoundTrip(t *testing.T) {
 	})
 }
 
+// c32BoundaryInputs enumerates truncated streams whose announced property-block or payload
+// length sits at, just above and well above the protocol limit.
+func c32BoundaryInputs() [][]byte {
+	var out [][]byte
+	firstObj := func(props bool) []byte { // header + complete first object with a 1-byte payload
+		b := []byte{0x30, 0x01, 0x02, 0x00}
+		if props {
+			b[0] |= 0x01
+			b = append(b, 0x00)
+		}
+		return append(b, 0x01, 'x')
+	}
+	for _, second := range []bool{false, true} {
+		for _, props := range []bool{false, true} {
+			var pre []byte
+			if second {
+				pre = append(firstObj(props), 0x00) // + id delta of the second object
+			} else {
+				pre = []byte{0x30, 0x01, 0x02, 0x00}
+				if props {
+					pre[0] |= 0x01
+				}
+			}
+			if props {
+				for _, c := range []uint64{c32MaxProps, c32MaxProps + 1, 8 * c32MaxProps, 16 << 20} {
+					out = append(out, ref.AppendVarint(append([]byte(nil), pre...), c))
+				}
+				pre = append(pre, 0x00) // empty property block before the payload length
+			}
+			for _, c := range []uint64{c32MaxPayload, c32MaxPayload + 1, 2*c32MaxPayload + 1, 40 << 20} {
+				out = append(out, ref.AppendVarint(append([]byte(nil), pre...), c))
+			}
+		}
+	}
+	return out
+}
+
 func TestVerifC32SubgroupBytes(t *testing.T) {
 	rec := kit.R("TestVerifC32SubgroupBytes")
 	t.Cleanup(kit.Flush)
 	// a length claim far beyond the limits kills the process if a decoder believes it
 	fmt.Println("VERIF-OOM-IS-VIOLATION: C32 subgroup decoding must not allocate from unchecked length claims")
+
+	// Fixed boundary inputs first (claims just above / well above each limit, in the first and in
+	// the second object): a decoder that believes them is reported with a measured figure before
+	// the random search can meet a claim large enough to kill the process.
+	for _, in := range c32BoundaryInputs() {
+		if _, err := c32CheckBytes(in); err != nil {
+			t.Fatalf("%v", err)
+		}
+	}
 
 	rapid.Check(t, func(t *rapid.T) {
 		var in []byte
